@@ -5,8 +5,8 @@
    correspondence run (table bytes and JSON v2 levelOfConcern vs this model,
    JSON v2 value vs JSON v1 value). *)
 From Coq Require Import String.
-From GS Require Import GoSem Text Float64 Human Output OutputProofs ContentsBridge.
-From GSGen Require Import ContentsGen.
+From GS Require Import GoSem Text Float64 Human Output OutputProofs ContentsBridge TableProofs LevelBridge.
+From GSGen Require Import ContentsGen LevelGen.
 Open Scope Z_scope.
 
 (* a row is emitted iff the item is "interesting"; it is hidden iff it is not
@@ -77,3 +77,66 @@ Theorem C11_every_field_once :
            (concat (map (fun p => match snd p with Some x => [x] | None => [] end) (gitems contents_gen))) = true.
 Proof. exact every_field_once. Qed.
 Print Assumptions C11_every_field_once.
+
+(* ---- whole tables (TableProofs.v) ---- *)
+
+(* "when no row qualifies a single 'no problems' line is printed instead of a table" — and only then *)
+Theorem C11_no_problems_iff : forall c t,
+  table_string c t = no_problems <-> Forall (fun i => level_of_concern i t = None) (items_of c).
+Proof. exact no_problems_iff. Qed.
+Print Assumptions C11_no_problems_iff.
+
+(* the text emitted for a section (header included) is empty iff none of its items is shown, at any nesting depth *)
+Theorem C11_section_empty_iff : forall c t indent f, fst (emit c t indent f) = [] <-> shown c t = [].
+Proof. exact emit_nil_iff. Qed.
+Print Assumptions C11_section_empty_iff.
+
+(* "raising the threshold only removes rows": the items shown at the higher threshold are a subsequence of those shown at the
+   lower one, and every one of them keeps its marker *)
+Theorem C11_table_monotone : forall c t1 t2, 0 < th_den t1 -> 0 < th_den t2 -> thr_le t1 t2 ->
+  sublist (shown c t2) (shown c t1).
+Proof. exact shown_sublist. Qed.
+Print Assumptions C11_table_monotone.
+
+Theorem C11_table_marker : forall c t1 t2 i, 0 < th_den t1 -> 0 < th_den t2 -> thr_le t1 t2 -> In i (shown c t2) ->
+  In i (shown c t1) /\ level_of_concern i t1 = level_of_concern i t2.
+Proof. exact shown_marker. Qed.
+Print Assumptions C11_table_marker.
+
+Theorem C11_no_problems_monotone : forall c t1 t2, 0 < th_den t1 -> 0 < th_den t2 -> thr_le t1 t2 ->
+  table_string c t1 = no_problems -> table_string c t2 = no_problems.
+Proof. exact no_problems_mono. Qed.
+Print Assumptions C11_no_problems_monotone.
+
+(* "--verbose shows every metric": for the real layout and any non-negative measurements, all 22 quantities and every
+   refgroup count are shown at a threshold <= 0 *)
+Theorem C11_verbose_report_complete : forall r t, th_num t <= 0 -> 0 < th_den t ->
+  Forall (fun z => 0 <= z) (rp_nums r) -> Forall (fun g => 0 <= snd g) (rp_groups r) ->
+  shown (contents r) t = items_of (contents r) /\ (22 <= length (shown (contents r) t))%nat.
+Proof. exact verbose_report_complete. Qed.
+Print Assumptions C11_verbose_report_complete.
+
+(* the hypotheses are met and the conclusions are not vacuous: a small repository (every quantity 5, no annotated tag, three references under refs/tags) gives the
+   "No problems" line at the default threshold 1 and 23 rows with --verbose *)
+Example C11_table_example :
+  let r := mk_report [5;5;5;5;5;5;5;5;5;5;5;5;5;0;5;5;5;5;5;5;5;5] [] [(str "tags", str "Tags", 3)] in
+  table_string (contents r) (mk_thr 1 1) = no_problems /\
+  length (shown (contents r) (mk_thr 0 1)) = 23%nat /\
+  table_string (contents r) (mk_thr 0 1) <> no_problems.
+Proof. cbv zeta. split; [vm_compute; reflexivity|]. split; [vm_compute; reflexivity|]. intros H. vm_compute in H. discriminate. Qed.
+
+(* ---- tie T for levelOfConcern (LevelBridge.v) ---- *)
+
+(* gen/LevelGen.v is the statement list of the Go method levelOfConcern, regenerated from sizes/output.go on every run; run
+   under the Go meaning of its constructs (binary64 division and comparison, int() truncation, bounds-checked slicing) it IS
+   Output.level_of_concern, for every item a scan can produce and every float64 threshold *)
+Theorem C11_level_generated : forall (i : item) (f : float), 0 <= it_value i -> 0 < fnum (it_scale i) ->
+  run_level level_gen i f = out_of (level_of_concern i (thr_of f)).
+Proof. exact level_generated_items. Qed.
+Print Assumptions C11_level_generated.
+
+(* in particular the slice stars[:int(alert)] never goes out of bounds *)
+Theorem C11_level_never_panics : forall (i : item) (f : float), 0 <= it_value i -> 0 < fnum (it_scale i) ->
+  run_level level_gen i f <> LPanic /\ run_level level_gen i f <> LStuck.
+Proof. exact level_never_panics. Qed.
+Print Assumptions C11_level_never_panics.
